@@ -26,6 +26,21 @@ CHECKS = {
         text="Exhaustive short-string exploration per generated enum against an executable reference of the documented matching rule; differential check of newtypes against the inner type's FromStr including the error value.",
         note="Trusted: rustc, std's FromStr impls, the 8-line reference rule. Unicode case folding beyond str::to_lowercase is not explored.",
         design_ref="DESIGN.md §3 C13", engine="compile"),
+    "C08": dict(
+        technique="bounded exhaustive enumeration of struct shapes (0..3 fields, named/tuple/unit, distinct and equal field types) x From/Into/Constructor attribute configurations, and of enums (full product of variant kinds x #[from] placements for <=2 variants) compiled with the real proc-macro; values, addresses, From::from call counts and impl presence/absence (trait-resolution probes) compared with the documented rule",
+        text="Small-scope exhaustive exploration with tagged field types: every conversion is executed and compared (values in order, address identity for reference forms, exactly-one-From::from counters, round trip), and the generated impl set is pinned from both sides (call what must exist, autoref-probe what must not).",
+        note="Trusted: rustc trait resolution for the presence/absence probes; the rule tables in props/c08.py. Bounds: <=3 fields, <=2 variants (3 over a reduced alphabet in thorough).",
+        design_ref="DESIGN.md §3 C08", engine="compile"),
+    "C09": dict(
+        technique="exhaustive enumeration of all field layouts (struct/variant x named/tuple x 0..3 fields x 7 attribute choices x names x types: 81,760 layouts) through the real expander in-process, compared with a model of the documented selection rules; plus run-time address identity of source() on compiled layouts (plain, Box<dyn Error>, generic)",
+        text="Every layout in the bounded space is expanded by the real code and the selected member read off the expansion is compared with the documented-rule model (ambiguous layouts must be rejected, never a panic); the backtrace-free layouts are additionally compiled and source() compared by address with the field.",
+        note="Trusted: the 40-line rule model (every prediction executed); the regex that reads the selected member off the expansion (fails loudly when it cannot). Layouts with a detected backtrace are decided in-process only (their provide() needs nightly).",
+        design_ref="DESIGN.md §3 C09", engine="inproc+compile"),
+    "C14": dict(
+        technique="bounded exhaustive enumeration of structs (1..3 fields x selected position x selection mode x named/tuple x equal/different field types) x {Deref, DerefMut, AsRef, AsMut, Index, IndexMut, IntoIterator} x {direct, forward, listed types, generic, owned/ref/ref_mut}; address identity and write-through observed at run time",
+        text="Small-scope exhaustive exploration; the field type's own AsRef<Self>/AsMut<Self> deliberately return a decoy so 'the field itself' vs 'a forwarded call' is observable; addresses of returned references and iterated elements are compared with the field's own.",
+        note="Trusted: rustc; address comparison within one process. Bounds: <=3 fields.",
+        design_ref="DESIGN.md §3 C14", engine="compile"),
 }
 
 PENDING = ["C01", "C02", "C03", "C04", "C05", "C06", "C07", "C08", "C09", "C10", "C11", "C13", "C14", "C15", "C16",
